@@ -9,6 +9,7 @@ pub const RULE: &str = "cases: every authority shape (user-info {absent, empty, 
 pub const MANDATORY: &[&str] = &["host:empty", "host:reg-name", "host:ipv4", "host:ipv6", "host:ipvfuture", "host:non-ascii", "host:pct", "history-len:1", "history-len:2"];
 
 const OPS: &[&str] = &[
+    "host:%68", "host:H", "host:ex%61mple.org", "ui:%75", "ui:U",
     "ui:u", "ui:longer-user:pw", "ui:", "ui-", "host:h", "host:longer.example.org", "host:", "host:[::1]", "host:\u{e9}.org", "host:%C3%A9", "port:80",
     "port:", "port:12345", "port-",
 ];
@@ -94,7 +95,16 @@ pub fn generate(ctx: &mut Ctx) {
         let p = gen::parts_with(&mut rng, o, hs, true);
         let mut ops: Vec<String> = Vec::new();
         for _ in 0..rng.range(1, 12) {
-            ops.push(match rng.below(8) {
+            ops.push(match rng.below(11) {
+                8 => {
+                    // a different spelling of the host/user info the reference started with (equal after decoding)
+                    let a = p.authority.clone().unwrap_or_default();
+                    let rest = a.rsplit('@').next().unwrap_or("").to_string();
+                    let h = if rest.starts_with('[') { rest[..rest.find(']').map(|i| i + 1).unwrap_or(rest.len())].to_string() } else { rest.split(':').next().unwrap_or("").to_string() };
+                    if h.starts_with('[') { format!("host:{}", h) } else { format!("host:{}", gen::respell_component(&mut rng, &h, false)) }
+                }
+                9 => match p.authority.clone().unwrap_or_default().find('@') { Some(i) => format!("ui:{}", gen::respell_component(&mut rng, &p.authority.clone().unwrap()[..i], false)), None => "ui:%75".to_string() },
+                10 => rng.pick(&["host:ex%61mple.org", "host:%68", "host:H", "ui:%75", "ui:U", "host:%C3%A9.org", "host:%c3%a9.org"]).to_string(),
                 0 => format!("ui:{}", gen::userinfo(&mut rng, o)),
                 1 => "ui-".to_string(),
                 2 | 3 => format!("host:{}", gen::host(&mut rng, o)),
